@@ -708,6 +708,14 @@ func mapOrderCases(thorough bool, f func(sc.Case, []string)) {
 			{Name: "@B", Body: gen.Obj(gen.P("y", gen.Int("1").With(gen.R("min", "6"))))},
 			{Name: "@C", Body: gen.Obj(gen.P("z", gen.Int("1").With(gen.RL("or", gen.RuleItem{Set: []gen.Rule{gen.R("type", `"string"`), gen.R("minLength", "1")}}, gen.RuleItem{Set: []gen.Rule{gen.R("type", `"boolean"`)}}))))}}}, []string{`{}`})
 	}
+	// the same with names that a comparator which is not a total order would tie (letter case only,
+	// one a prefix of the other, equal lengths, punctuation only, order that flips when case is folded):
+	// wherever the library puts type names in a "fixed" order, ties fall back to the map order
+	for _, pr := range [][2]string{{"@Pet", "@pet"}, {"@a", "@ab"}, {"@ab", "@ba"}, {"@a-1", "@a_1"}, {"@B", "@a"}} {
+		f(sc.Case{Root: gen.Obj(gen.P("p", gen.Ref(pr[0])), gen.P("q", gen.Ref(pr[1]))), Types: []sc.TypeDecl{
+			{Name: pr[0], Body: gen.Obj(gen.P("x", gen.Int("1").With(gen.R("min", "5"))))},
+			{Name: pr[1], Body: gen.Str(`"abc"`).With(gen.R("maxLength", "1"))}}}, []string{`{}`})
+	}
 	// an error inside a node inherited through allOf: it lies in the parent's file
 	for _, root := range []*gen.Node{gen.Ref("@A"), gen.Obj(gen.P("k", gen.Ref("@A")))} {
 		for _, mesh := range []bool{false, true} {
